@@ -3,8 +3,9 @@ C12/C13 model: patch.rs `parse_patch` / `parse_rel_path` on UTF-8 bytes, and the
 Unix semantics of `std::path::Path::components` needed by the lexical path checks.
 -/
 import Rip.Model.Patch
+import Rip.Model.Text
 namespace Rip.Patch
-open Rip.Proto
+open Rip.Proto Rip.Text
 
 /-! ### `str::lines` -/
 
@@ -19,39 +20,6 @@ def strLines (s : Bytes) : List Bytes :=
         (stripCr line) :: go r []
       else go r (b :: cur)
   go s []
-
-/-! ### `str::trim` (Unicode White_Space) on UTF-8 bytes -/
-
-def wsSeqs : List Bytes :=
-  [[9], [10], [11], [12], [13], [32], [0xC2, 0x85], [0xC2, 0xA0], [0xE1, 0x9A, 0x80],
-   [0xE2, 0x80, 0x80], [0xE2, 0x80, 0x81], [0xE2, 0x80, 0x82], [0xE2, 0x80, 0x83], [0xE2, 0x80, 0x84],
-   [0xE2, 0x80, 0x85], [0xE2, 0x80, 0x86], [0xE2, 0x80, 0x87], [0xE2, 0x80, 0x88], [0xE2, 0x80, 0x89],
-   [0xE2, 0x80, 0x8A], [0xE2, 0x80, 0xA8], [0xE2, 0x80, 0xA9], [0xE2, 0x80, 0xAF], [0xE2, 0x81, 0x9F],
-   [0xE3, 0x80, 0x80]]
-
-def stripWsPrefix (s : Bytes) : Option Bytes :=
-  (wsSeqs.filterMap (fun w => if w.isPrefixOf s then some (s.drop w.length) else none)).head?
-
-def trimStart (s : Bytes) (fuel : Nat) : Bytes :=
-  match fuel with
-  | 0 => s
-  | fuel + 1 =>
-    match stripWsPrefix s with
-    | some r => trimStart r fuel
-    | none => s
-
-def stripWsSuffix (s : Bytes) : Option Bytes :=
-  (wsSeqs.filterMap (fun w => if w.reverse.isPrefixOf s.reverse then some (s.take (s.length - w.length)) else none)).head?
-
-def trimEnd (s : Bytes) (fuel : Nat) : Bytes :=
-  match fuel with
-  | 0 => s
-  | fuel + 1 =>
-    match stripWsSuffix s with
-    | some r => trimEnd r fuel
-    | none => s
-
-def trim (s : Bytes) : Bytes := trimEnd (trimStart s s.length) s.length
 
 /-! ### `Path::components` (Unix) -/
 
